@@ -186,6 +186,20 @@ func Run(prefix []int, maxSteps int, logOn bool, setup func(x *Exec), body func(
 	return x
 }
 
+// BlockedNow lists the threads that are not finished and not the caller, with what they wait for (to be used
+// by the harness thread right after WaitIdle).
+//
+//go:norace
+func (x *Exec) BlockedNow() []Blocked {
+	var out []Blocked
+	for _, t := range x.threads {
+		if t.state != stDone && t != x.cur {
+			out = append(out, Blocked{t.ID, t.Name, t.Desc, t.Daemon})
+		}
+	}
+	return out
+}
+
 // Finish kills every thread that is still blocked; call it after all
 // observations have been taken. Deferred functions of killed threads run with
 // the shims in pass-through mode.
